@@ -46,6 +46,16 @@ CHECKS = {
    note="Trusted: TLC, HtFile.tla, libxcrypt md5/des crypt and hashlib.md5 as independent verifiers of stored hashes. Blank lines are not "
         "compared; the position of a re-added user is left to the library. Model alphabet: 3 keys, 2 passwords, 7 initial contents.",
    technique="TLA+ spec (HtFile.tla) model-checked with TLC + spec-to-implementation behaviour replay with independent read-back"),
+ "C09": dict(cat=MC, design="DESIGN.md §3 C09, App. B.1",
+   text="Hasher.tla transcribes the settings algebra of using() (aliases, rounds as fallback, hard-limit refusal/clamping, window "
+        "consistency, default re-clipping, int/percent vary_rounds on linear and log2 costs, odd-cost quirk, salt size) and what costs a fresh hash "
+        "may carry / needs_update flags; TLC checks well-formedness, fresh-costs-inside-window-and-limits, fresh-needs-no-update, strict-never-clamps "
+        "and the frame property over exhaustive short chains; random 8-step behaviours over derivation trees are replayed on framework handlers built "
+        "from the library's mix-ins and on 15 real hashers instantiated from their real limits, comparing after every step the attributes of every "
+        "node (incl. the global hasher), the random range used, parsed-back cost and salt size of fresh hashes, and needs_update.",
+   note="Trusted: TLC, Hasher.tla. Costs above a per-hasher cheap bound are compared on attributes only; hard maxima >= 2^31-1 are treated as absent. "
+        "ident/variant/truncate_error/scrypt block_size keywords are not in this model yet.",
+   technique="TLA+ spec (Hasher.tla) model-checked with TLC + spec-to-implementation behaviour replay on derivation trees"),
 }
 PENDING = {}
 props = [json.loads(l) for l in open(os.path.join(HERE, "properties.jsonl"))]
